@@ -8,9 +8,16 @@
    models (C13, C14, C15, C16, C07); that the real code does not write while computing them is
    observed, not proved: the harness records the operands' object graph by pointer identity before
    and after every such call and the evaluator checks it is the same graph (values, shape and
-   sharing; HUnchanged cases), and a race-detector build runs them concurrently on one document. *)
+   sharing; HUnchanged cases), and a race-detector build runs them concurrently on one document.
+   Since round 15 there is a second, static tie: the stores the Go sources make through a receiver
+   or parameter, and the calls that hand such a value on, are extracted on every run
+   (Gen/Locks.v: operand_writes, operand_calls, operand_roots); no chain of such calls, however
+   long, leads from an exported query or value-returning operation of pkg/sbom or of the
+   serializers to a store through one of its operands (C11_readonly_operands_not_written), and a
+   computation that stores only into what it allocated itself leaves every operand snapshot as it
+   was (C11_own_allocations_only). *)
 From Coq Require Import Lia.
-From Verif Require Import Model.Base Model.Heap Proofs.HeapFacts Proofs.ParseFacts.
+From Verif Require Import Model.Base Model.Heap Gen.Locks Model.Effects Proofs.HeapFacts Proofs.EffectFacts Proofs.ParseFacts.
 Open Scope list_scope.
 
 (* copying leaves every location of the source heap as it was *)
@@ -41,3 +48,34 @@ Example C11_example :
   let '(v', h') := copy_value h (HPtr 0) in
   (same_graph h [HPtr 0] h' [HPtr 0] && negb (same_graph h [HPtr 0] (hset h' 1 (HArr [HS "c"; HS "b"])) [HPtr 0]))%bool = true.
 Proof. vm_compute. reflexivity. Qed.
+
+(* no operand of a comparing, hashing, diffing, copying, look-up, traversing, uniting, intersecting or
+   serializing operation, and no operand of a mutator other than its receiver, is stored through,
+   directly or through any chain of calls the extracted tables contain *)
+Theorem C11_readonly_operands_not_written : forall x,
+  In x operand_roots -> protected_root x = true -> ~ Writes operand_writes operand_calls x.
+Proof. exact readonly_operands_not_written. Qed.
+Print Assumptions C11_readonly_operands_not_written.
+
+(* a computation that allocates, and stores only into locations it allocated, leaves the snapshot of
+   every earlier value as it was: the discipline the sorted copies in Equal and flatString follow *)
+Theorem C11_own_allocations_only : forall fuel ops h v,
+  dense h -> fresh_only (Z.of_nat (length h)) ops = true ->
+  (forall l, Reach h v l -> hget h l <> None) ->
+  tree_of fuel (fold_left hstep ops h) v = tree_of fuel h v.
+Proof. exact fresh_only_keeps_snapshot. Qed.
+Print Assumptions C11_own_allocations_only.
+
+(* the table is not silent: every documented mutator is found to write its receiver; and sorting a
+   copy is an own-allocations-only program while sorting in place is not *)
+Example C11_effects_example :
+  forallb (fun m => fmem m (writers operand_writes operand_calls)) mutators = true /\
+  forallb (fun f => existsb (fun r => String.eqb (fst r) f) operand_roots) readonly_ops = true /\
+  protected_root ("sbom.NodeList.Equal", 1) = true /\ protected_root ("sbom.NodeList.Add", 1) = true /\
+  protected_root ("sbom.NodeList.Add", 0) = false /\
+  (let h := [ (0, HArr [HS "b"; HS "a"]) ] in
+   fresh_only 1 [OAlloc (HArr [HS "b"; HS "a"]); OStore 1 (HArr [HS "a"; HS "b"])] = true /\
+   fresh_only 1 [OStore 0 (HArr [HS "a"; HS "b"])] = false /\
+   tree_of 3 (fold_left hstep [OAlloc (HArr [HS "b"; HS "a"]); OStore 1 (HArr [HS "a"; HS "b"])] h) (HSl 0 2) = tree_of 3 h (HSl 0 2) /\
+   tree_of 3 (fold_left hstep [OStore 0 (HArr [HS "a"; HS "b"])] h) (HSl 0 2) <> tree_of 3 h (HSl 0 2)).
+Proof. split; [exact mutators_write|]. split; [exact readonly_ops_present|]. vm_compute. repeat split; try reflexivity. discriminate. Qed.
